@@ -84,6 +84,10 @@ impl Scenario for Dens {
         if big {
             spec.m = rng.log_range(257, 20_000) as usize;
         }
+        let sparse_huge = !big && rng.chance(0.03);
+        if sparse_huge {
+            spec.m = rng.log_range(1500, 6000) as usize;
+        }
         let m = spec.m;
         let pool = crate::sc_stream::gen_items(rng, (3 * m).clamp(4, 3000), spec.elem);
         let nseg = rng.urange(1, 3);
@@ -93,7 +97,7 @@ impl Scenario for Dens {
                 ops.push(DOp::Reinit);
             }
             // number of items: sparse regimes favoured
-            let n = match rng.below(10) {
+            let n = match if sparse_huge { rng.range(1, 3) } else { rng.below(10) } {
                 0 => 0,
                 1 | 2 => 1,
                 3 => 2,
@@ -103,6 +107,7 @@ impl Scenario for Dens {
             };
             // the Opt variant costs m^2/n steps: keep huge sparse cases rare but present
             let n = if big && matches!(spec.kind, UKind::OptF64 | UKind::OptF32) { n.max(m / 200) } else { n };
+            let n = if sparse_huge { n.clamp(1, 4) } else { n };
             let mut items: Vec<u64> = (0..n).map(|_| *rng.pick(&pool)).collect();
             if rng.chance(0.5) {
                 items.sort();
